@@ -13,6 +13,7 @@ import Lox.Lex.Drv
 import Lox.Lex.DrvRuntime
 import Lox.Lex.DrvGen
 import Lox.Lex.DrvEmit
+import Lox.Lex.DrvGenSpec
 import Lox.Dec.Drv
 import Lox.Dec.DrvTerminals
 import Lox.Dec.DrvAssign
@@ -32,7 +33,7 @@ def dispatch (line : String) : String :=
     | "rang3" => Lox.Rang3.handle op payload
     | "table" => Lox.Table.handle op payload
     | "lr" => (((((((Lox.LR.handle op payload).orElse fun _ => Lox.LR.handleDesugar op payload).orElse fun _ => Lox.LR.Rt.handleRecovery op payload).orElse fun _ => Lox.LR.handleJustify op payload).orElse fun _ => Lox.LR.Gen.handleGenModel op payload).orElse fun _ => Lox.LR.handleConflict op payload).orElse fun _ => Lox.LR.Cons.handleConstruct op payload).orElse fun _ => Lox.LR.Emit.handleEmit op payload
-    | "lex" => (((Lox.Lex.handle op payload).orElse fun _ => Lox.Lex.Rt.handleRuntime op payload).orElse fun _ => Lox.Lex.Gen.handleGen op payload).orElse fun _ => Lox.Lex.Gen.handleEmit op payload
+    | "lex" => ((((Lox.Lex.handle op payload).orElse fun _ => Lox.Lex.Rt.handleRuntime op payload).orElse fun _ => Lox.Lex.Gen.handleGen op payload).orElse fun _ => Lox.Lex.Gen.handleEmit op payload).orElse fun _ => Lox.Lex.GenSpec.handleGenSpec op payload
     | "dec" => (((((Lox.Dec.handle op payload).orElse fun _ => Lox.Dec.Terminals.handleTerminals op payload).orElse fun _ => Lox.Dec.Assign.handleAssign op payload).orElse fun _ => Lox.Dec.Analyze.handleAnalyze op payload).orElse fun _ => Lox.Dec.FrontText.handleFrontText op payload).orElse fun _ => Lox.Dec.Containers.handleContainers op payload
     | _ => none
   r.getD "bad-op"
